@@ -135,3 +135,13 @@ package glyf
 //@     invariant start <= j && j <= end && len(pp) == end - start && end <= numPoints && 0 <= start
 //@     invariant len(yy) == numPoints && len(xx) == numPoints && len(ff) == numPoints
 //@     decreases end - j
+
+//@ func (glyph *SimpleGlyph) removePadding() (err error)   props: C02 C11
+//@   requires glyph != nil && glyph.NumContours >= 0
+//@   ensures err == nil ==> len(glyph.Encoded) <= len(old(glyph.Encoded)) && len(glyph.Encoded) >= 2*glyph.NumContours + 2
+//@   ensures glyph.NumContours == old(glyph.NumContours)
+//@   modifies glyph.Encoded
+//@   loop 0
+//@     invariant 0 <= i && i <= numPoints + 256 && 0 <= numPoints && numPoints <= 65536 && 0 <= coordBytes && coordBytes <= 1024*i
+//@     invariant 2*numContours + 2 <= pos && pos <= 200000 + 2*i && numContours >= 0 && numContours <= 32767
+//@     decreases numPoints - i
